@@ -1217,7 +1217,7 @@ func runSORTTYPES(c *Ctx, r *Result, rule string) int {
 		return nil, false
 	}
 	n := 0
-	records := map[types.Type]bool{} // element types of the record slices
+	records := map[string]bool{} // types of the record slices
 	var recordIdx []ssa.Value
 	ord := 0
 	for _, ins := range instrsIn(f) {
@@ -1257,7 +1257,7 @@ func runSORTTYPES(c *Ctx, r *Result, rule string) int {
 			o.Verdict, o.Reason = Finding, "the mixed-type error of a sort term is not decided from a per-term record kept over all items (a slice made here and indexed by the term): comparing with the neighbouring item only misses mixed keys separated by an item without the key, and lt panics on them"
 		} else {
 			o.Verdict, o.Reason = Discharged, "the error is controlled by the per-term record " + rec.X.Name() + "[" + rec.Index.Name() + "]"
-			records[rec.X.Type()] = true
+			records[rec.X.Type().String()] = true
 			recordIdx = append(recordIdx, rec.Index)
 		}
 		r.Add(o)
@@ -1270,7 +1270,7 @@ func runSORTTYPES(c *Ctx, r *Result, rule string) int {
 			continue
 		}
 		ia, ok := st.Addr.(*ssa.IndexAddr)
-		if !ok || !records[ia.X.Type()] || !madeHere(ia.X) {
+		if !ok || !records[ia.X.Type().String()] || !madeHere(ia.X) {
 			continue
 		}
 		sord++
@@ -1928,14 +1928,11 @@ func runMISSLAST(c *Ctx, r *Result, rule string) int {
 			}
 			return -1
 		}
-		for _, hb := range f.Blocks {
-			iff, ok := hb.Instrs[len(hb.Instrs)-1].(*ssa.If)
-			if !ok {
-				continue
-			}
-			bo, ok := iff.Cond.(*ssa.BinOp)
+		// the absent-key test a branch condition makes: which item, and on which edge it is absent
+		undefTest := func(cond ssa.Value) (int, bool) {
+			bo, ok := cond.(*ssa.BinOp)
 			if !ok || bo.Op != token.EQL {
-				continue
+				return -1, false
 			}
 			var x ssa.Value
 			switch {
@@ -1944,19 +1941,47 @@ func runMISSLAST(c *Ctx, r *Result, rule string) int {
 			case isUndefinedLoad(bo.X) || isZeroValueConst(bo.X):
 				x = bo.Y
 			default:
-				continue
+				return -1, false
 			}
 			who := from(x, 0)
-			if who < 0 {
-				continue
-			}
-			t := hb.Succs[0]
-			ret, ok := t.Instrs[len(t.Instrs)-1].(*ssa.Return)
-			if !ok || len(t.Instrs) != 1 || len(ret.Results) != 1 {
+			return who, who >= 0
+		}
+		for _, rb := range f.Blocks {
+			ret, ok := rb.Instrs[len(rb.Instrs)-1].(*ssa.Return)
+			if !ok || len(rb.Instrs) != 1 || len(ret.Results) != 1 {
 				continue
 			}
 			k, ok := ret.Results[0].(*ssa.Const)
 			if !ok || k.Value == nil || k.Value.Kind() != constant.Bool {
+				continue
+			}
+			// what the dominating branches say about the two keys
+			absent := map[int]bool{}
+			present := map[int]bool{}
+			for d := rb; d != nil; d = d.Idom() {
+				if len(d.Preds) != 1 {
+					continue
+				}
+				pr := d.Preds[0]
+				iff, isIf := pr.Instrs[len(pr.Instrs)-1].(*ssa.If)
+				if !isIf || pr.Succs[0] == pr.Succs[1] {
+					continue
+				}
+				if who, ok := undefTest(iff.Cond); ok {
+					if d == pr.Succs[0] {
+						absent[who] = true
+					} else {
+						present[who] = true
+					}
+				}
+			}
+			var who int
+			switch {
+			case absent[0] && !absent[1]:
+				who = 0
+			case absent[1] && !absent[0]:
+				who = 1
+			default:
 				continue
 			}
 			n++
